@@ -28,7 +28,8 @@
 (***************************************************************************)
 EXTENDS Integers, Sequences, TLC, Json, FiniteSets
 
-CONSTANTS MINNODES, \* the builder may stop only after this many nodes (0 for exhaustive runs; random walks use it to grow)
+CONSTANTS RICH,     \* builder alphabet: FALSE = core forms; TRUE = also data structures, strings, integer division, library HOFs
+          MINNODES, \* the builder may stop only after this many nodes (0 for exhaustive runs; random walks use it to grow)
           MAXSTACK, \* at most this many unfinished/finished forms side by side (forces nesting in random walks)
           BUDGET,   \* max number of AST nodes assembled by the builder
           FUEL,     \* machine step bound (exhaustion = case discarded, counted)
@@ -64,6 +65,8 @@ PrimV(op) == [k |-> "prim", op |-> op]
 VecV(es) == [k |-> "vec", es |-> es]           \* immutable vector
 BoxV(l)  == [k |-> "box", l |-> l]             \* mutable box: store location
 MVecV(l) == [k |-> "mvec", l |-> l]            \* mutable vector: store location
+HashV(es) == [k |-> "hash", es |-> es]          \* es: sequence of <<key, value>>, keys pairwise different
+CharV(c) == [k |-> "char", ch |-> c]
 Unbound  == [k |-> "unbound"]
 ErrV(kind) == [k |-> "errobj", kind |-> kind]
 
@@ -116,7 +119,11 @@ MidHalf     == [k |-> "cmidhalf"]
               "not", "eq?", "equal?", "length", "append", "reverse", "apply", "map", "for-each",
               "foldl", "filter", "vector", "vector-ref", "vector-length", "box", "unbox", "set-box!",
               "emit", "call/cc", "dynamic-wind", "error", "void?", "procedure?", "integer?",
-              "symbol?", "zero?", "list-ref", "cadr", "#%verif-depth", "depth=?"}
+              "symbol?", "zero?", "list-ref", "cadr", "#%verif-depth", "depth=?",
+              "hash", "hash-ref", "hash-insert", "hash-contains?", "hash-length", "string-append", "string-length",
+              "string->symbol", "symbol->string", "number->string", "string=?", "list->vector", "vector->list",
+              "foldr", "member", "assoc", "abs", "min", "max", "quotient", "remainder", "modulo", "even?", "odd?",
+              "string?", "vector?", "boolean?", "hash?", "list?", "char?"}
 
 -----
 (* Rendering: Scheme source text and Steel's printed form of values *)
@@ -136,6 +143,8 @@ Show(v) ==
                          THEN "(" \o Join([i \in 1..Len(SeqOf(v)) |-> Show(SeqOf(v)[i])], " ") \o ")"
                          ELSE "(" \o Show(v.a) \o " . " \o Show(v.d) \o ")"
     [] v.k = "vec"  -> "#(" \o Join([i \in 1..Len(v.es) |-> Show(v.es[i])], " ") \o ")"
+    [] v.k = "hash" -> "#<proc>"            \* iteration order is unspecified: never observed through printing
+    [] v.k = "char" -> "#\\" \o v.ch
     [] v.k = "clo"  -> "#<proc>"
     [] v.k = "prim" -> "#<proc>"
     [] v.k = "kont" -> "#<proc>"
@@ -152,12 +161,13 @@ Datum(v) ==
     [] v.k = "nil"  -> "()"
     [] v.k = "sym"  -> v.s
     [] v.k = "str"  -> "\"" \o v.t \o "\""
+    [] v.k = "char" -> "#\\" \o v.ch
     [] v.k = "pair" -> IF IsList(v)
                          THEN "(" \o Join([i \in 1..Len(SeqOf(v)) |-> Datum(SeqOf(v)[i])], " ") \o ")"
                          ELSE "(" \o Datum(v.a) \o " . " \o Datum(v.d) \o ")"
     [] v.k = "vec"  -> "#(" \o Join([i \in 1..Len(v.es) |-> Datum(v.es[i])], " ") \o ")"
     [] OTHER -> "#<?>"
-Quoted(v) == IF v.k \in {"int", "bool", "str"} THEN Datum(v)
+Quoted(v) == IF v.k \in {"int", "bool", "str", "char"} THEN Datum(v)
              ELSE IF v.k = "void" THEN "void" ELSE "'" \o Datum(v)
 
 \* User identifiers carry the placeholder "@@", which the replayer replaces by a number unique
@@ -247,6 +257,9 @@ EqualV(a, b) ==
   IF a.k # b.k THEN FALSE
   ELSE CASE a.k = "pair" -> EqualV(a.a, b.a) /\ EqualV(a.d, b.d)
          [] a.k = "vec" -> Len(a.es) = Len(b.es) /\ \A i \in 1..Len(a.es) : EqualV(a.es[i], b.es[i])
+         [] a.k = "hash" -> /\ Len(a.es) = Len(b.es)
+                            /\ \A i \in 1..Len(a.es) : \E j \in 1..Len(b.es) :
+                                  EqualV(a.es[i][1], b.es[j][1]) /\ EqualV(a.es[i][2], b.es[j][2])
          [] OTHER -> a = b
 
 \* eq? is only generated on leaves and on identical store-allocated objects
@@ -257,6 +270,32 @@ AppendV(a, b) == IF a.k = "nil" THEN b ELSE PairV(a.a, AppendV(a.d, b))
 RECURSIVE RevOnto(_, _)
 RevOnto(a, acc) == IF a.k = "nil" THEN acc ELSE RevOnto(a.d, PairV(a.a, acc))
 
+\* finite maps as association sequences; keys compared with equal?
+HasKey(es, key) == \E i \in 1..Len(es) : EqualV(es[i][1], key)
+Lookup2(es, key) == es[CHOOSE i \in 1..Len(es) : EqualV(es[i][1], key)][2]
+PutKey(es, key, val) == IF HasKey(es, key)
+                          THEN [i \in 1..Len(es) |-> IF EqualV(es[i][1], key) THEN <<key, val>> ELSE es[i]]
+                          ELSE Append(es, <<key, val>>)
+RECURSIVE HashFromArgs(_)
+HashFromArgs(as) == IF as = << >> THEN << >>      \* later duplicates win
+                    ELSE LET rest == HashFromArgs(SubSeq(as, 1, Len(as) - 2)) IN PutKey(rest, as[Len(as) - 1], as[Len(as)])
+RECURSIVE ConcatStr(_)
+ConcatStr(as) == IF as = << >> THEN "" ELSE as[1].t \o ConcatStr(Tail(as))
+\* string length: the model's strings are drawn from a fixed table
+StrLen(t) == CASE t = "" -> 0 [] t = "s" -> 1 [] t = "ab" -> 2 [] t = "boom" -> 4 [] OTHER -> -1
+RECURSIVE MemberV(_, _)
+MemberV(x, l) == IF l.k = "nil" THEN BoolV(FALSE) ELSE IF EqualV(l.a, x) THEN l ELSE MemberV(x, l.d)
+RECURSIVE AssocV(_, _)
+AssocV(x, l) == IF l.k = "nil" THEN BoolV(FALSE) ELSE IF EqualV(l.a.a, x) THEN l.a ELSE AssocV(x, l.d)
+AbsI(i) == IF i < 0 THEN 0 - i ELSE i
+SgnI(i) == IF i < 0 THEN 0 - 1 ELSE 1
+\* quotient truncates, remainder has the sign of the dividend, modulo the sign of the divisor
+IntDiv(op, a, b) ==
+  LET q == SgnI(a) * SgnI(b) * (AbsI(a) \div AbsI(b))
+      r == a - b * q IN
+  CASE op = "quotient" -> q
+    [] op = "remainder" -> r
+    [] op = "modulo" -> IF r # 0 /\ (SgnI(r) # SgnI(b)) THEN r + b ELSE r
 OkR(v) == [ok |-> TRUE, v |-> v]
 ErrR(kind) == [ok |-> FALSE, v |-> ErrV(kind)]
 
@@ -322,9 +361,53 @@ Delta(op, as) ==
                             ELSE IF ~(as[1].k = "vec" /\ as[2].k = "int") THEN ErrR("TypeMismatch")
                             ELSE IF as[2].i < 0 \/ as[2].i >= Len(as[1].es) THEN ErrR("Generic")
                             ELSE OkR(as[1].es[as[2].i + 1])
+    [] op = "hash" -> IF n % 2 # 0 THEN ErrR("ArityMismatch")
+                      ELSE OkR(HashV(HashFromArgs(as)))
+    [] op = "hash-ref" -> IF n # 2 THEN ErrR("ArityMismatch") ELSE IF as[1].k # "hash" THEN ErrR("TypeMismatch")
+                          ELSE IF HasKey(as[1].es, as[2]) THEN OkR(Lookup2(as[1].es, as[2])) ELSE ErrR("Generic")
+    [] op = "hash-contains?" -> IF n # 2 THEN ErrR("ArityMismatch") ELSE IF as[1].k # "hash" THEN ErrR("TypeMismatch")
+                                ELSE OkR(BoolV(HasKey(as[1].es, as[2])))
+    [] op = "hash-insert" -> IF n # 3 THEN ErrR("ArityMismatch") ELSE IF as[1].k # "hash" THEN ErrR("TypeMismatch")
+                             ELSE OkR(HashV(PutKey(as[1].es, as[2], as[3])))
+    [] op = "hash-length" -> IF n # 1 THEN ErrR("ArityMismatch") ELSE IF as[1].k # "hash" THEN ErrR("TypeMismatch")
+                             ELSE OkR(IntV(Len(as[1].es)))
+    [] op = "string-append" -> IF \A i \in 1..n : as[i].k = "str" THEN OkR(StrV(ConcatStr(as))) ELSE ErrR("TypeMismatch")
+    [] op = "string-length" -> IF n # 1 THEN ErrR("ArityMismatch") ELSE IF as[1].k # "str" THEN ErrR("TypeMismatch")
+                               ELSE OkR(IntV(StrLen(as[1].t)))
+    [] op = "string=?" -> IF n # 2 THEN ErrR("ArityMismatch") ELSE IF as[1].k # "str" \/ as[2].k # "str" THEN ErrR("TypeMismatch")
+                          ELSE OkR(BoolV(as[1].t = as[2].t))
+    [] op = "string->symbol" -> IF n # 1 THEN ErrR("ArityMismatch") ELSE IF as[1].k # "str" THEN ErrR("TypeMismatch") ELSE OkR(SymV(as[1].t))
+    [] op = "symbol->string" -> IF n # 1 THEN ErrR("ArityMismatch") ELSE IF as[1].k # "sym" THEN ErrR("TypeMismatch") ELSE OkR(StrV(as[1].s))
+    [] op = "number->string" -> IF n # 1 THEN ErrR("ArityMismatch") ELSE IF as[1].k # "int" THEN ErrR("TypeMismatch") ELSE OkR(StrV(ToString(as[1].i)))
+    [] op = "list->vector" -> IF n # 1 THEN ErrR("ArityMismatch") ELSE IF ~IsList(as[1]) THEN ErrR("TypeMismatch") ELSE OkR(VecV(SeqOf(as[1])))
+    [] op = "vector->list" -> IF n # 1 THEN ErrR("ArityMismatch") ELSE IF as[1].k # "vec" THEN ErrR("TypeMismatch") ELSE OkR(ListV(as[1].es))
+    [] op = "member" -> IF n # 2 THEN ErrR("ArityMismatch") ELSE IF ~IsList(as[2]) THEN ErrR("TypeMismatch") ELSE OkR(MemberV(as[1], as[2]))
+    [] op = "assoc" -> IF n # 2 THEN ErrR("ArityMismatch") ELSE IF ~IsList(as[2]) THEN ErrR("TypeMismatch")
+                       ELSE IF \E i \in 1..Len(SeqOf(as[2])) : SeqOf(as[2])[i].k # "pair" THEN ErrR("TypeMismatch")
+                       ELSE OkR(AssocV(as[1], as[2]))
+    [] op = "abs" -> IF n # 1 THEN ErrR("ArityMismatch") ELSE IF as[1].k # "int" THEN ErrR("TypeMismatch")
+                     ELSE OkR(IntV(IF as[1].i < 0 THEN 0 - as[1].i ELSE as[1].i))
+    [] op \in {"min", "max"} -> IF n = 0 THEN ErrR("ArityMismatch") ELSE IF ~AllInts(as) THEN ErrR("TypeMismatch")
+                     ELSE OkR(IntV(CHOOSE m \in {as[i].i : i \in 1..n} :
+                                     \A i \in 1..n : IF op = "min" THEN m <= as[i].i ELSE m >= as[i].i))
+    [] op \in {"quotient", "remainder", "modulo"} ->
+                     IF n # 2 THEN ErrR("ArityMismatch") ELSE IF ~AllInts(as) THEN ErrR("TypeMismatch")
+                     ELSE IF as[2].i = 0 THEN ErrR("Generic")
+                     ELSE OkR(IntV(IntDiv(op, as[1].i, as[2].i)))
+    [] op \in {"even?", "odd?"} -> IF n # 1 THEN ErrR("ArityMismatch") ELSE IF as[1].k # "int" THEN ErrR("TypeMismatch")
+                     ELSE OkR(BoolV((as[1].i % 2 = 0) = (op = "even?")))
+    [] op = "string?" -> IF n # 1 THEN ErrR("ArityMismatch") ELSE OkR(BoolV(as[1].k = "str"))
+    [] op = "vector?" -> IF n # 1 THEN ErrR("ArityMismatch") ELSE OkR(BoolV(as[1].k = "vec"))
+    [] op = "boolean?" -> IF n # 1 THEN ErrR("ArityMismatch") ELSE OkR(BoolV(as[1].k = "bool"))
+    [] op = "hash?" -> IF n # 1 THEN ErrR("ArityMismatch") ELSE OkR(BoolV(as[1].k = "hash"))
+    [] op = "char?" -> IF n # 1 THEN ErrR("ArityMismatch") ELSE OkR(BoolV(as[1].k = "char"))
+    [] op = "list?" -> IF n # 1 THEN ErrR("ArityMismatch") ELSE OkR(BoolV(IsList(as[1])))
     [] OTHER -> ErrR("Generic")
 
-PurePrims == {"depth=?", "+", "-", "*", "=", "<", ">", "zero?", "car", "cdr", "cadr", "cons", "list", "null?",
+PurePrims == {"hash", "hash-ref", "hash-insert", "hash-contains?", "hash-length", "string-append", "string-length",
+              "string->symbol", "symbol->string", "number->string", "string=?", "list->vector", "vector->list",
+              "member", "assoc", "abs", "min", "max", "quotient", "remainder", "modulo", "even?", "odd?",
+              "string?", "vector?", "boolean?", "hash?", "list?", "char?", "depth=?", "+", "-", "*", "=", "<", ">", "zero?", "car", "cdr", "cadr", "cons", "list", "null?",
               "pair?", "void?", "integer?", "symbol?", "procedure?", "not", "eq?", "equal?",
               "length", "append", "reverse", "list-ref", "vector", "vector-length", "vector-ref"}
 
@@ -378,6 +461,9 @@ InitBuild == /\ phase = "build" /\ bstack = << >> /\ nodes = 0 /\ units = << >> 
 (* Builder: bottom-up assembly of forms.  bstack head = most recently finished. *)
 BVars == {"x", "y"}
 BAtoms == {I(0), I(1), I(2), C(BoolV(FALSE)), C(Nil), C(SymV("a")), Var("x"), Var("y"), Var("f")}
+           \cup (IF RICH THEN {C(StrV("s")), C(StrV("ab")), C(ListV(<<IntV(1), IntV(2)>>)), I(0 - 3)} ELSE {})
+RPrim1 == {"string-length", "hash-length", "vector->list", "list->vector", "abs", "even?", "symbol->string", "number->string", "reverse", "cadr"}
+RPrim2 == {"hash", "hash-ref", "hash-contains?", "string-append", "vector-ref", "vector", "member", "quotient", "remainder", "modulo", "max", "equal?", "append", "list-ref"}
 IsExpr(e) == e.k # "def"
 Top(n) == SubSeq(bstack, 1, n)            \* top n entries, head first
 Drop(n) == SubSeq(bstack, n + 1, Len(bstack))
@@ -411,6 +497,15 @@ BuildStep ==
      \/ HaveExprs(1) /\ BReplace(1, P("call/cc", <<Lam(<<"f">>, "", bstack[1])>>))
      \/ HaveExprs(2) /\ BReplace(2, WithHandler(Lam(<<"y">>, "", bstack[2]), bstack[1]))
      \/ \E v \in BVars \cup {"f"} : HaveExprs(1) /\ BReplace(1, Def(v, bstack[1]))
+     \* RICH alphabet: data structures, strings, integer division, higher-order library procedures
+     \/ RICH /\ \E op \in RPrim1 : HaveExprs(1) /\ BReplace(1, P(op, <<bstack[1]>>))
+     \/ RICH /\ \E op \in RPrim2 : HaveExprs(2) /\ BReplace(2, P(op, <<bstack[2], bstack[1]>>))
+     \/ RICH /\ HaveExprs(3) /\ BReplace(3, P("hash-insert", <<bstack[3], bstack[2], bstack[1]>>))
+     \/ RICH /\ \E hof \in {"map", "filter", "for-each"} : \E v \in BVars :
+                  HaveExprs(2) /\ BReplace(2, P(hof, <<Lam(<<v>>, "", bstack[2]), bstack[1]>>))
+     \/ RICH /\ \E hof \in {"foldl", "foldr"} :
+                  HaveExprs(3) /\ BReplace(3, P(hof, <<Lam(<<"x", "y">>, "", bstack[3]), bstack[2], bstack[1]>>))
+     \/ RICH /\ HaveExprs(2) /\ BReplace(2, P("apply", <<bstack[2], bstack[1]>>))
   /\ UNCHANGED <<phase, units, ui, fi, mode, ctrl, env, store, kont, winders, genv, out, outcome,
                  lastval, fuel>>
 
@@ -751,6 +846,13 @@ ApplyStep ==
                         IF xs = << >> THEN /\ ctrl' = Nil /\ mode' = "ret" /\ UNCHANGED <<env, store, kont, winders, out>>
                         ELSE /\ ctrl' = [fn |-> as[1], args |-> <<Head(xs)>>]
                              /\ kont' = Push([f |-> "filterk", fn |-> as[1], done |-> << >>, todo |-> Tail(xs), cur |-> Head(xs)])
+                             /\ UNCHANGED <<env, store, mode, winders, out>>
+              [] op = "foldr" ->    \* (foldr f init lst) = (foldl f init (reverse lst))
+                   IF n # 3 \/ ~IsList(as[n]) THEN /\ Raise("TypeMismatch") /\ UNCHANGED <<env, store, kont, winders, out>>
+                   ELSE LET xs == SeqOf(RevOnto(as[3], Nil)) IN
+                        IF xs = << >> THEN /\ ctrl' = as[2] /\ mode' = "ret" /\ UNCHANGED <<env, store, kont, winders, out>>
+                        ELSE /\ ctrl' = [fn |-> as[1], args |-> <<Head(xs), as[2]>>]
+                             /\ kont' = Push([f |-> "foldk", fn |-> as[1], todo |-> Tail(xs)])
                              /\ UNCHANGED <<env, store, mode, winders, out>>
               [] op = "foldl" ->    \* (foldl f init lst): f called as (f elem acc)
                    IF n # 3 \/ ~IsList(as[n]) THEN /\ Raise("TypeMismatch") /\ UNCHANGED <<env, store, kont, winders, out>>
